@@ -29,7 +29,9 @@ struct RawScope { RawScope() { faults_off(true); } ~RawScope() { faults_off(fals
 // ---- IPC name space
 int last_sem_obj();                                 // object id returned by the current task's last successful sem_open (-1 none)
 int last_shm_obj();
-bool last_shm_created();                            // the current task's last shm_open created the object
+bool last_shm_created();
+size_t last_shm_size_at_open();
+long last_fstat_size();                             // st_size the current task's last fstat reported since its last shm_open (-1: none)                      // size the object had when the current task's last shm_open returned                            // the current task's last shm_open created the object
 const char *last_sem_name();                        // platform key used by the current task's last sem_open
 const char *last_shm_name();
 int sem_value(int obj);
